@@ -331,6 +331,8 @@ fn conv_level(t: &mut Tape<'_>, o: &ConvOpts, depth: usize, name: &str) -> CmdSp
         if matches!(a.action, Action::Set | Action::Append) && t.chance(1, 3) {
             a.action_inferred = true;
         }
+        // relations declared through the singular method for the first and the plural method for the rest
+        a.plural_builders = t.bool();
     }
     c
 }
